@@ -857,7 +857,7 @@ def generate(ctx, shard=0, nshards=1):
                     'doc', False)
         check_table(ctx, rng, [26.0, 27.0, 28.0], [-0.4720355555555556, 0.19868916666666666, 0.8607394444444444], 'doc', True)
         check_table(ctx, rng, [0.0, 1.0, 2.0, 3.0, 4.0, 5.0, 6.0], [math.sin(v) for v in range(7)], 'sine_0_6', True, npairs=200)
-    ntab = ctx.n(640, 12000) // nshards + 1
+    ntab = ctx.n(1600, 12000) // nshards + 1
     _seen[0] = _seen[1] = 0
     for _ in range(ntab):
         if enough_failures(ctx):
@@ -878,7 +878,7 @@ def generate(ctx, shard=0, nshards=1):
             check_table(ctx, rng, xs, ys, klass + '/smooth', False, None, npairs=ctx.n(14, 30), wellcond=wc)
         if rng.random() < 0.3:
             check_duplicates(ctx, rng, xs, ys)
-    for _ in range(ctx.n(400, 4000) // nshards + 1):
+    for _ in range(ctx.n(1000, 4000) // nshards + 1):
         if enough_failures(ctx):
             break
         check_clients(ctx, rng)
